@@ -14,6 +14,8 @@ NOTES = {
 def base_of(sid):
     if sid in ("C04-r2m1", "C04-r2m2", "C16-r2m1", "C16-r2m2"):
         return "f4dbe85"
+    if "-r2" in sid and sid.split("-")[0] in ("C01", "C02", "C05", "C06", "C07", "C08", "C09", "C10", "C12", "C17", "C18", "C20"):
+        return "070ccfd"
     if "-r2" in sid:
         return "26537ed"
     if sid in ("C01-m3", "C02-m1", "C04-m2"):
